@@ -281,6 +281,14 @@ def corpus_cases():
                          it(2, 2.0 ** -10, [0.0, 0.0], None), it(1, 0.0, [0.0, 0.0], None)]))
     # caller Σ above max_penalty (the one configuration in which penalties can shrink)
     cs.append(mk(Σ0=[128.0, 1.0], Σkind="above-max", script=[it(3, 1.0, [1.0, 1.0], None)] * 4))
+    # an outer iteration whose violation is within the dual tolerance but which does not end the run (inner MaxIter): the NEXT penalty update
+    # must compare with that iteration's errors, not with older ones (Δθ > 1: a component that shrank by θ would otherwise grow; and the converse)
+    cs.append(mk(script=[it(1, 1.0, [2.0 ** -10, 1.0], None), it(3, 1.0, [2.0 ** -8, 2.0 ** -8], None),
+                         it(3, 1.0, [2.0 ** -9, 1.5 * 2.0 ** -8], None), it(3, 1.0, [1.0, 1.0], None)]))
+    cs.append(mk(script=[it(3, 1.0, [1.0, 1.0], None), it(3, 1.0, [2.0 ** -9, 2.0 ** -9], None),
+                         it(3, 1.0, [1.5 * 2.0 ** -8, 2.0 ** -10], None), it(3, 1.0, [1.0, 1.0], None)]))
+    cs.append(mk(single=True, Σ0=[2.0, 2.0], Σkind="valid", script=[it(3, 1.0, [2.0 ** -10, 2.0 ** -7], None), it(3, 1.0, [2.0 ** -8, 2.0 ** -9], None),
+                                                                   it(3, 1.0, [1.5 * 2.0 ** -8, 0.0], None), it(3, 1.0, [1.0, 1.0], None)]))
     # max_iter = 0; m = 0; single factor; interrupted first call
     cs.append(mk(max_iter=0, Σ0=[1.0, 1.0], Σkind="valid"))
     cs.append(mk(lb=[], ub=[], g0=[], y0=[], script=[it(1, 2.0 ** -11, None, None, 5)]))
